@@ -4,6 +4,8 @@
 set -e
 cd "$(dirname "$0")"
 mkdir -p build out evidence
+find build -maxdepth 1 -name "hgv_*" ! -perm -u+x -delete 2>/dev/null || true   # debris of an interrupted link
+rm -f build/*.tmp
 targets=""
 for m in $(cat build_modes.txt); do targets="$targets /verif/build/hgv_$m"; done
 make -C harness -j"$(nproc)" $targets > build/setup-make.log 2>&1 || { tail -40 build/setup-make.log; exit 2; }
